@@ -903,7 +903,7 @@ class C08(Prop):
         "Home Assistant's bus, MQTT client and webhook HTTP view are outside the model ('handed over by Home Assistant'): the driver fires "
         "events on the real bus, calls the callbacks pyscript registered with mqtt.async_subscribe (patched) once per matching "
         "subscription topic, and the handler found in Home Assistant's real webhook registry",
-        "filter expressions are the generated fragment (names, comparisons with literals, not/and/or); values other than int/str/bool/None/"
+        "filter expressions are the generated fragment (names, comparisons with literals, int(x), 6 // x, dict-display lookup, not/and/or; any exception = false); values other than int/str/bool/None/"
         "Context are opaque (identity + truth value); Context() ids are assumed unique",
         "attribution of an observed run to one of several decorators of its function is found by an untrusted search in the harness and "
         "validated by the Coq checker (a wrong hint can only produce a false alarm)",
